@@ -30,7 +30,8 @@ let rec int_of_nat = function O -> 0 | S n -> 1 + int_of_nat n
 let mo_name n = match int_of_n n with 0 -> "rlx" | 1 -> "cns" | 2 -> "acq" | 3 -> "rel" | 4 -> "acqrel" | 5 -> "sc" | _ -> "?"
 
 (* per-model naming of LNamed codes and operations *)
-type naming = { named : int -> string; opname : int -> string; resname : coq_N list -> string }
+type naming = { named : int -> string; opname : int -> string; resname : coq_N list -> string; note : int -> coq_N list -> string option }
+let no_note _ _ = None
 
 let loc_str nm = function
   | LNamed (c, off) -> let b = nm.named (int_of_n c) in if int_of_n off = 0 then b else b ^ "+" ^ string_of_n off
@@ -51,7 +52,10 @@ let ev_lines nm e =
   | ERet (i, r) -> [t i ^ "res " ^ nm.resname r]
   | EAlloc (i, b, sz) -> [t i ^ "ALLOC h" ^ string_of_n b ^ " " ^ string_of_n sz]
   | EFree (i, b) -> [t i ^ "FREE h" ^ string_of_n b]
-  | ENote (i, c, args) -> [t i ^ "NOTE " ^ string_of_n c ^ String.concat "" (List.map (fun a -> " " ^ string_of_n a) args)]
+  | ENote (i, c, args) ->
+    (match int_of_n c with
+     | 100 -> [t i ^ "LOCK mutex"] | 101 -> [t i ^ "UNLOCK mutex"] | 102 -> [t i ^ "SCHED_YIELD"]
+     | code -> (match nm.note code args with Some s -> [t i ^ s] | None -> [t i ^ "NOTE " ^ string_of_n c ^ String.concat "" (List.map (fun a -> " " ^ string_of_n a) args)]))
 
 (* ---------------------------------------------------------------- case files *)
 type case = { cfg : (string * string) list; prog : (string * string list) list array; sched : int list; choices : int list }
@@ -121,28 +125,36 @@ let run_sched inst (c : case) (sched : int list) (emit : string -> unit) =
     end else incr skipped) sched;
   (!st, !skipped, covered, remaining)
 
-(* a thread is runnable if it is not idle or has operations left *)
+(* a thread can move if (after starting its next operation when idle) its step is enabled *)
 let gen_schedule inst (c : case) (rng : Random.State.t) (switch_pct : int) maxlen =
   let st = ref inst.init in
   let remaining = Array.map (fun ops -> ref ops) c.prog in
   let sched = ref [] in
   let cur = ref 0 in
   let n = Array.length remaining - 1 in
-  let runnable t = (not (inst.idle !st t)) || !(remaining.(t)) <> [] in
+  (* returns the state after "start if idle" and the step result *)
+  let attempt t =
+    let s0 = !st in
+    let s1, rest =
+      if inst.idle s0 t then
+        (match !(remaining.(t)) with
+         | o :: rest -> (match inst.start s0 t o with Some s' -> Some s', Some rest | None -> None, None)
+         | [] -> None, None)
+      else Some s0, None in
+    match s1 with
+    | None -> None
+    | Some s1 -> (match inst.step s1 t 0 with Some (s2, _) -> Some (s2, rest) | None -> None) in
   let len = ref 0 in
   let stuck = ref false in
-  while (not !stuck) && !len < maxlen && (let any = ref false in for t = 1 to n do if runnable t then any := true done; !any) do
-    let cands = List.filter runnable (List.init n (fun i -> i + 1)) in
-    let t = if !cur > 0 && runnable !cur && Random.State.int rng 100 >= switch_pct then !cur else List.nth cands (Random.State.int rng (List.length cands)) in
-    cur := t;
-    if inst.idle !st t then begin
-      match !(remaining.(t)) with
-      | o :: rest -> (match inst.start !st t o with Some s' -> st := s'; remaining.(t) := rest | None -> stuck := true)
-      | [] -> ()
-    end;
-    (match inst.step !st t 0 with
-     | Some (s', _) -> st := s'; sched := t :: !sched; incr len
-     | None -> stuck := true)
+  while (not !stuck) && !len < maxlen do
+    let cands = List.filter (fun t -> attempt t <> None) (List.init n (fun i -> i + 1)) in
+    if cands = [] then stuck := true else begin
+      let t = if !cur > 0 && List.mem !cur cands && Random.State.int rng 100 >= switch_pct then !cur else List.nth cands (Random.State.int rng (List.length cands)) in
+      cur := t;
+      match attempt t with
+      | Some (s2, rest) -> st := s2; (match rest with Some r -> remaining.(t) := r | None -> ()); sched := t :: !sched; incr len
+      | None -> stuck := true
+    end
   done;
   List.rev !sched
 
@@ -155,6 +167,7 @@ let chase_inst (c : case) : ChaseDefs.state inst =
     named = (function 0 -> "bottom" | 1 -> "top" | 2 -> "capacity" | 3 -> "items" | _ -> "?");
     opname = (function 0 -> "push" | 1 -> "pop" | 2 -> "steal" | _ -> "?");
     resname = (fun r -> match r with [a; x] when int_of_n a = 1 -> string_of_n x | [a] when int_of_n a = 1 -> "ok" | [a] when int_of_n a = 2 -> "empty" | _ -> "full");
+    note = no_note;
   } in
   { init = ChaseDefs.init pol;
     idle = (fun st t -> match st.th (nat_of_int t) with Idle -> true | _ -> false);
@@ -179,6 +192,7 @@ let seqlock_inst (c : case) : SeqlockDefs.state inst =
     named = (function 0 -> "seq" | 1 -> "data" | _ -> "?");
     opname = (function 0 -> "load" | 1 -> "store" | 2 -> "update" | _ -> "?");
     resname = (fun r -> match r with [] -> "ok" | ws -> (match pat_find nsize words ws (nat_of_int 4096) N0 with Some v -> string_of_n v | None -> "torn"));
+    note = no_note;
   } in
   (* inv lines print the operation's argument as the harness does (the value id, not its words) *)
   let nm_inv = { nm with opname = nm.opname } in
@@ -190,6 +204,29 @@ let seqlock_inst (c : case) : SeqlockDefs.state inst =
         | "store", [v] -> OStore (n_of_string v, pat_words nsize words (n_of_string v)) | "update", [d] -> OUpdate (n_of_string d) | _ -> OLoad in
       match SeqlockDefs.step slots words func st (Start (nat_of_int t, o)) with Some (s', _) -> Some s' | None -> None);
     step = (fun st t _ -> SeqlockDefs.step slots words func st (Step (nat_of_int t)));
+    pctag = (fun st t -> let p = st.th (nat_of_int t) in if Obj.is_int (Obj.repr p) then "i" ^ string_of_int (Obj.magic p : int) else string_of_int (Obj.tag (Obj.repr p)));
+    nm }
+
+(* ---------------------------------------------------------------- left_right *)
+let lr_inst (c : case) : LeftRightDefs.state inst =
+  let open LeftRightDefs in
+  let iname i = if int_of_n i = 0 then "left" else "right" in
+  let fname f = if int_of_n f = 0 then "x" else "y" in
+  let nm = {
+    named = (function 0 -> "mutex" | 1 -> "version" | 2 -> "lr" | 3 -> "ind0" | 4 -> "ind1" | _ -> "?");
+    opname = (function 0 -> "read" | 1 -> "update" | _ -> "?");
+    resname = (fun r -> match r with [] -> "ok" | [x; y] -> if int64_of_n x = int64_of_n y then string_of_n x else "mixed:" ^ string_of_n x ^ "," ^ string_of_n y | _ -> "?");
+    note = (fun code args -> match code, args with
+      | 110, [i; f; v] -> Some ("PR " ^ iname i ^ "." ^ fname f ^ " " ^ string_of_n v)
+      | 111, [i; f; v] -> Some ("PW " ^ iname i ^ "." ^ fname f ^ " " ^ string_of_n v)
+      | _ -> None);
+  } in
+  { init = LeftRightDefs.init;
+    idle = (fun st t -> match st.th (nat_of_int t) with Idle -> true | _ -> false);
+    start = (fun st t (name, args) ->
+      let o = match name, args with "update", [d] -> OUpdate (n_of_string d) | _ -> ORead in
+      match LeftRightDefs.step st (Start (nat_of_int t, o)) with Some (s', _) -> Some s' | None -> None);
+    step = (fun st t _ -> LeftRightDefs.step st (Step (nat_of_int t)));
     pctag = (fun st t -> let p = st.th (nat_of_int t) in if Obj.is_int (Obj.repr p) then "i" ^ string_of_int (Obj.magic p : int) else string_of_int (Obj.tag (Obj.repr p)));
     nm }
 
@@ -217,4 +254,5 @@ let () =
   match model with
   | "chase" -> go (chase_inst c)
   | "seqlock" -> go (seqlock_inst c)
+  | "lr" -> go (lr_inst c)
   | _ -> prerr_endline ("unknown model " ^ model); exit 2
